@@ -482,6 +482,40 @@ func shapes(w *tr.W, r *rng.R, thorough bool) {
 			}
 		}
 	}
+	// tall trees: 2^k+1 inserts and one Delete leave a single tree of degree k (Fibonacci) / order k
+	// (binomial): the degree table is used up to its highest index that any run reaches
+	maxK := 9
+	if thorough {
+		maxK = 12
+	}
+	for _, orient := range orients {
+		for _, impl := range impls {
+			for k := 1; k <= maxK; k++ {
+				for _, keyShape := range []int{0, 1, 2, 3} { // ascending, descending, equal, random small range
+					var ops []string
+					nIns := (1 << k) + 1
+					for x := 0; x < nIns; x++ {
+						key := x
+						switch keyShape {
+						case 1:
+							key = nIns - x
+						case 2:
+							key = 5
+						case 3:
+							key = r.Range(1, 4)
+						}
+						ops = append(ops, fmt.Sprintf("0 I %d %d", key, 100+x))
+					}
+					ops = append(ops, "0 D", "0 S", "0 V", "0 DUMP", "0 P")
+					for x := 0; x < nIns/2; x++ {
+						ops = append(ops, "0 D")
+					}
+					ops = append(ops, "0 S", "0 V", "0 DUMP", "0 I 0 1", "0 I 9 2", "0 D", "0 DUMP")
+					runCase(w, header(impl, orient, []int{k % 5}), ops)
+				}
+			}
+		}
+	}
 	// the float64 maxDegree against the exact definition
 	top := 20000
 	if thorough {
